@@ -200,6 +200,111 @@ def _fullwidth_rule(ctx, repo, fi, du, fast):
         raise AnalysisError("Reader.read: no definition of the full-width gain vector found")
 
 
+def _strip_int(e):
+    while isinstance(e, ast.Call) and call_name(e) == "int" and len(e.args) == 1:
+        e = e.args[0]
+    return e
+
+
+def _identity_order_attr(repo, cls_q, attr):
+    """Is self.<attr> assigned, somewhere in the class, a test that raw_channel_order is the identity (all(diff(order) == 1) / array_equal(order, arange))?"""
+    for q, f in repo.functions.items():
+        if not q.startswith(cls_q + "."):
+            continue
+        for st in ast.walk(f.node):
+            if isinstance(st, ast.Assign) and any(loc_name(t) == "self." + attr for t in st.targets):
+                t_ = src(st.value).replace(" ", "")
+                if "raw_channel_order" in t_ and (("diff(" in t_ and "==1" in t_ and "all(" in t_) or ("array_equal(" in t_ and "arange(" in t_)):
+                    return True
+    return False
+
+
+def _selector_helper_rule(ctx, repo, fi, d):
+    """The selector is the result of a helper method: every value the helper can return is the caller's selector pushed through raw_channel_order
+    (or the selector itself where no order exists / the order is the identity), possibly re-spelled as the slice that enumerates the same run."""
+    from sa import guards as GD
+    from sa.common import expand_deep
+    call = d.value
+    q = repo.resolve_expr(fi, call.func)
+    h = repo.functions.get(q) if q else None
+    if h is None:
+        return None
+    b = bind(call, h)
+    p = None
+    for prm, arg in b.bound.items():
+        if isinstance(arg, ast.Name) and arg.id in fi.params:
+            p = prm
+    if p is None:
+        return None
+    duh = DefUse(h.node)
+    cfg = duh.cfg
+    cls_q = q.rsplit(".", 1)[0]
+    perm = 0
+    for r in returns_of(h.node):
+        if r.value is None:
+            ctx.violation(h, r, r, "the selector helper returns None on a path", key="helper-none")
+            continue
+        at_ = GD.Atoms()
+        pc = GD.path_condition(cfg, cfg.node_for(r), at_)
+        keys = [k for k in GD.atoms_of(pc)]
+        holds = [(src(expand_deep(duh, at_.exprs[k], r)) if k in at_.exprs else k, GD.entails(pc, GD.Atom(k)) is True, GD.entails(pc, GD.Not(GD.Atom(k))) is True) for k in keys]
+        v = expand_deep(duh, r.value, r)
+        v0 = _strip_int(v)
+        if isinstance(v0, ast.Name) and v0.id == p:
+            # identity: no order at all, or the order is established to be the identity
+            ok = False
+            for k, pos, neg in holds:
+                t_ = k.replace(" ", "")
+                if neg and "raw_channel_order" in t_ and ("hasattr" in t_ or "None" in t_):
+                    ok = True
+                if pos and t_.startswith("self.") and _identity_order_attr(repo, cls_q, t_[5:]):
+                    ok = True
+                if pos and "raw_channel_order" in t_ and (("diff(" in t_ and "==1" in t_) or ("array_equal(" in t_ and "arange(" in t_)):
+                    ok = True
+            ctx.check(ok, h, r, f"return {p} under [{GD.show(pc)[:100]}]", "the caller's selector is used as it is only where no on-disk order exists or the order is the identity",
+                      f"`{src(r)}` hands the caller's selector back without the on-disk permutation under [{GD.show(pc)[:120]}], which does not establish that raw_channel_order is absent or the identity: "
+                      "with sort=True column i would not be geometry entry i", key="helper-identity", name_free=True)
+            continue
+        if isinstance(v0, ast.Subscript) and loc_name(v0.value) == ORDER and loc_name(v0.slice) == p:
+            perm += 1
+            ctx.ok(h, r, f"return raw_channel_order[{p}]", "the selector is the on-disk order applied to the caller's selector", key="helper-perm")
+            continue
+        if isinstance(v0, ast.Call) and call_name(v0) == "slice" and len(v0.args) == 3:
+            stop_ = v0.args[1]
+            if isinstance(stop_, ast.IfExp):  # stop if stop >= 0 else None
+                stop_ = stop_.orelse if (isinstance(stop_.body, ast.Constant) and stop_.body.value is None) else stop_.body
+            if isinstance(stop_, ast.Constant) and stop_.value is None:
+                # the open-ended form of the same run: right exactly when the stop computed from the run would be negative (the run reaches column 0 downwards)
+                oknone = any((neg and ">=0" in k.replace(" ", "") and "[-1]" in k) or (pos and "<0" in k.replace(" ", "") and "[-1]" in k) for k, pos, neg in holds)
+                ctx.check(oknone, h, r, "slice(run[0], None, step) where run[-1] + step < 0", "the open-ended slice replaces the run only when its computed stop would be negative",
+                          f"`{src(r)[:100]}` reads to the end of the axis without establishing that the run ends there (run[-1] + step < 0)", key="helper-slice-open", name_free=True)
+                if oknone:
+                    perm += 1
+                continue
+            a, bb, c = (_strip_int(x) for x in (v0.args[0], stop_, v0.args[2]))
+            run = f"{ORDER}[{p}]"
+            ta, tb, tc = (src(x).replace(" ", "") for x in (a, bb, c))
+            step_t = f"np.diff({run})[0]"
+            okform = ta == f"{run}[0]" and tc == step_t and tb in (f"{run}[-1]+{step_t}", f"{step_t}+{run}[-1]")
+            regular = any(pos and "all(" in k.replace(" ", "") and "diff(" in k and "==" in k for k, pos, neg in holds)
+            ctx.check(okform and regular, h, r, f"return slice(run[0], run[-1] + step, step) for run = {run}", "an index run is swapped for a slice only when it is regular (constant step) and the slice enumerates it",
+                      f"`{src(r)[:100]}` is not slice(run[0], run[-1] + step, step) of the run {run} under a guard establishing a constant step", key="helper-slice-form", name_free=True)
+            # Python reads a negative stop from the end: run[-1] + step < 0 happens for a descending run that reaches the first columns
+            safe = any(pos and (f"{step_t}>0" in k.replace(" ", "") or f"0<{step_t}" in k.replace(" ", "")) for k, pos, neg in holds) or \
+                any(pos and (">=0" in k.replace(" ", "") or "0<=" in k.replace(" ", "")) and "[-1]" in k for k, pos, neg in holds) or \
+                any(neg and ("<0" in k.replace(" ", "")) and "[-1]" in k for k, pos, neg in holds) or \
+                isinstance(v0.args[1], ast.IfExp) or any(isinstance(x, ast.IfExp) for x in ast.walk(r.value.args[1] if isinstance(r.value, ast.Call) and len(r.value.args) == 3 else r.value))
+            ctx.check(safe, h, r, "stop of the slice cannot be negative", "the stop of a slice built from a run is never negative (a negative stop counts from the end)",
+                      f"`{src(r)[:100]}`: for a descending run that reaches the first raw columns (step < 0, run[-1] + step < 0) the stop is negative and Python counts it from the end - "
+                      "the slice is empty or selects other columns: the read returns no / wrong channels for that selector (needs stop None there)", key="helper-slice-stop", name_free=True)
+            if okform and regular:
+                perm += 1
+            continue
+        ctx.violation(h, r, r, f"`{src(r)[:100]}` is neither the caller's selector, raw_channel_order[selector] nor the slice of that run: columns no longer follow Reader.geometry",
+                      key="helper-other", name_free=True)
+    return perm
+
+
 def d1_single_selector(ctx):
     ctx.rule("D1", "Reader.read gathers data columns and gains with one selector = raw_channel_order[csel]; result scaled "
                    "after float32 conversion and returned")
@@ -288,6 +393,7 @@ def d1_single_selector(ctx):
     # provenance of the selector: raw_channel_order[<caller's selector>] (or the bare parameter when no order exists)
     defs = [du.defs[i] for i in rd]
     perm_defs = []
+    helper_used = False
     for d in defs:
         if d.kind == "param":
             continue
@@ -317,6 +423,13 @@ def d1_single_selector(ctx):
                       f"(guards: {GD.show(pc_)[:160]}): a permuted or gapped selection whose end points happen to be size - 1 apart (sorted NP2 readers, caller lists such as [0, 5, 2]) "
                       "is read as the contiguous block - column i is no longer the electrode of geometry entry i", key="selector-slice", name_free=True)
             continue
+        if isinstance(v, ast.Call) and isinstance(v.func, ast.Attribute) and loc_name(v.func.value) == "self":
+            np_ = _selector_helper_rule(ctx, repo, fi, d)
+            if np_ is not None:
+                if np_:
+                    perm_defs.append(d)
+                helper_used = True
+                continue
         ok = (isinstance(v, ast.Subscript) and loc_name(v.value) == ORDER and loc_name(v.slice) is not None
               and all(x.kind == "param" for x in du.reaching(loc_name(v.slice), d.stmt)) and bool(du.reaching(loc_name(v.slice), d.stmt)))
         ctx.check(ok, fi, d.stmt, d.stmt, "selector is raw_channel_order indexed by the caller's channel selector",
@@ -330,7 +443,7 @@ def d1_single_selector(ctx):
     # a parameter definition may only reach the gathers on the path where the reader has no raw_channel_order
     if any(d.kind == "param" for d in defs) and perm_defs:
         cfg = du.cfg
-        for d in perm_defs:
+        for d in ([] if helper_used else perm_defs):
             cn = cfg.node_for(d.stmt)
             gs_ = [norm(t) for t, pol in cfg.guards(cn) if pol]
             ok = any("raw_channel_order" in g and ("hasattr" in g or "isnotNone" in g.replace(" ", "") or "None" in g) for g in gs_) or \
@@ -345,6 +458,19 @@ def d1_single_selector(ctx):
     if isinstance(data_stmt, ast.Assign) and len(data_stmt.targets) == 1:
         data_var = loc_name(data_stmt.targets[0])
     gain_stmt = du.cfg.node_for(gain_sites[0]).stmt
+    # the gathered block may be stored, rows at a time and all its columns, into a preallocated float32 buffer that is then scaled
+    buffered = None
+    if data_var is not None:
+        for m in du.defs:
+            st_ = m.stmt
+            if m.kind == "mutate" and isinstance(st_, ast.Assign) and isinstance(st_.targets[0], ast.Subscript) and loc_name(st_.value) == data_var:
+                el = index_elts(st_.targets[0])
+                if len(el) == 1 or all(is_full_slice(x) for x in el[1:]):
+                    alloc = [a_ for a_ in du.defs if a_.var == m.var and a_.kind == "assign" and isinstance(a_.value, ast.Call) and call_name(a_.value) in ("empty", "zeros")]
+                    if alloc:
+                        buffered = (m.var, "float32" in src(alloc[0].value))
+    if buffered is not None:
+        data_var = buffered[0]
     scaled = False
     if isinstance(gain_stmt, ast.AugAssign) and isinstance(gain_stmt.op, ast.Mult) and loc_name(gain_stmt.target) == data_var:
         scaled = True
@@ -368,6 +494,8 @@ def d1_single_selector(ctx):
             f32 = True
     if not f32 and id(site) in rawloc:
         f32 = rawloc[id(site)]
+    if not f32 and buffered is not None:
+        f32 = buffered[1]
     ctx.check(f32, fi, data_stmt, data_stmt, "raw samples are converted to a fresh float32 array before scaling",
               "raw samples are not converted to float32 (with a copy) before scaling", key="float32")
     rets = returns_of(fi.node)
